@@ -342,6 +342,13 @@ func SubscribeWithReplay[T any](
 		offset := bus.lastOffset
 		bus.storeMu.RUnlock()
 
+		// Nothing has been persisted by this bus yet (e.g. the first append
+		// failed): saving the empty offset would move the subscription back
+		// to the beginning of the log
+		if offset == OffsetOldest {
+			return
+		}
+
 		subStore.SaveOffset(ctx, subscriptionID, offset)
 	}
 
